@@ -12,7 +12,7 @@ import xarray as xr
 ID = 'C15'
 RULE = ('rasters <= 12x12 (mostly <= 8x8) over alphabets of 1-4 values from structured generators (uniform noise, smoothed '
         'blobs, concentric nested rings, spirals, random spanning-tree mazes and combs = U-shapes needing multi-level merges, '
-        'holes touching the border, checkerboards / diagonal lines = 8-connected pinches) plus noise, shapes 1x1, 1xN, Nx1, 2xN; '
+        'holes touching the border, checkerboards / diagonal lines = 8-connected pinches, > 64 provisional region ids = lookup resize) plus noise, shapes 1x1, 1xN, Nx1, 2xN; '
         'int32/int64/uint8/uint32/float32/float64 rasters (float values dyadic, spaced >= 0.25 so _is_close is equality); mask '
         'absent / all-true / random / structured / all-false with bool/int/float mask dtype; connectivity 4 and 8; transform absent '
         'or dyadic affine (scales, flips, rotations, shears, offsets); 30% of the float rasters get +inf/-inf/NaN cells (inf equals only '
@@ -486,6 +486,17 @@ def g_border_holes(rng, ny, nx, k):
     return g
 
 
+def g_growth(rng, ny, nx, k):
+    """> 64 provisional region ids (a 3-colour pattern in which no cell equals its W or S neighbour) below a maze / comb whose
+    merges then involve ids >= 64: exercises the resize of region_lookup in _merge_regions"""
+    h = min(ny - 2, max(6, 70 // nx + 1))
+    g = [[(i + 2 * j) % 3 for i in range(nx)] for j in range(h)]
+    top = (g_maze if rng.random() < 0.5 else g_comb)(rng, ny - h, nx, 2)
+    if rng.random() < 0.5:
+        top = [[v + 3 for v in row] for row in top]
+    return g + top
+
+
 GENS = [('uniform', g_uniform), ('blobs', g_blobs), ('nested', g_nested), ('spiral', g_spiral), ('maze', g_maze),
         ('comb', g_comb), ('pinch', g_pinch), ('border-holes', g_border_holes)]
 
@@ -552,6 +563,8 @@ def gen_case(rng, combos, big=0.06):
     ny, nx = gen_shape(rng, big)
     k = rng.choice([1, 2, 2, 2, 3, 3, 4])
     name, g = rng.choice(GENS)
+    if rng.random() < 0.03:
+        name, g, ny, nx = 'growth', g_growth, rng.randint(10, 13), rng.randint(10, 12)
     grid = g(rng, ny, nx, k)
     if rng.random() < 0.35:     # noise on top of the structure
         for _ in range(rng.randint(1, max(1, nx * ny // 8))):
